@@ -9,7 +9,11 @@
      prefix_stable_refuted_param_flag has_p() of a parameter of a NESTED view is
                                       Maybe<bool>(parameters_initialized_): Known(false) on the
                                       default-constructed view, Known(true) once the field is located
+     const_size_hypothesis_forced     (model only) a scalar with a dynamic [+n] size goes Ok -> not Ok
+     prefix_stable_top                readable corollary: Ok / IsComplete / size / has_x / x().Ok() / Read()
      wf_stable_example*               the hypotheses are satisfiable and the conclusion not vacuous
+   Nothing is missing from the mutual induction: [both_stable] closes eval_struct and eval_type
+   simultaneously for every fuel; the only restrictions are those of [wf_stable].
 
    Hypotheses of [wf_stable] and why each is forced:
      * no FArray                      refuted (F9)
@@ -955,10 +959,13 @@ Definition d_ex : sdef := nth 0 m_ex (mk_sdef 8 0 [] [] 0 None).
 (* On the 2-byte prefix: tag is Ok (= 1), has_x is Known(true) but x is not yet Ok, v = 2 and the
    size (7) are known, the view is neither complete nor Ok; with 5 more bytes everything is Ok
    and the values known before are unchanged. *)
+Example wf_stable_example_instance :
+  prefix_stable_at m_ex d_ex [] 8 [1; 2] [3; 4; 5; 6; 165].
+Proof. apply (prefix_stable_partial m_ex wf_stable_example). left; reflexivity. Qed.
+
 Example wf_stable_example_nonvacuous :
   let r := eval_struct m_ex [1; 2] 8 d_ex [] true (root [1; 2]) in
   let r' := eval_struct m_ex ([1; 2] ++ [3; 4; 5; 6; 165]) 8 d_ex [] true (root ([1; 2] ++ [3; 4; 5; 6; 165])) in
-  fle r r' /\
   (exists tag x v, nth_error (fr_sub r) 0 = Some (Some tag) /\ nth_error (fr_sub r) 1 = Some (Some x) /\
                    nth_error (fr_sub r) 5 = Some (Some v) /\
                    fr_ok tag = true /\ fr_val tag = Some (VInt 1) /\
@@ -970,9 +977,6 @@ Example wf_stable_example_nonvacuous :
                   fr_ok lo' = true /\ fr_val lo' = Some (VInt 5)) /\
   fr_ok r' = true.
 Proof.
-  split.
-  - apply (prefix_stable_partial m_ex wf_stable_example d_ex [] 8%nat [1; 2] [3; 4; 5; 6; 165]).
-    left; reflexivity.
-  - vm_compute. split; [do 3 eexists; repeat split; reflexivity|].
-    repeat split; try reflexivity. do 2 eexists; repeat split; reflexivity.
+  vm_compute. split; [do 3 eexists; repeat split; reflexivity|].
+  repeat split; try reflexivity. do 2 eexists; repeat split; reflexivity.
 Qed.
